@@ -81,7 +81,9 @@ def decompose_request(case):
 
 def score_scale(case):
     ys = case["y"]
-    m = 1.0
+    # no floor of 1 for data in a small unit (2**-20 and below): tolerances stay relative to the magnitude of the scores
+    big = max([abs(v) for v in ys] + [abs(v) for c in case["cols"] for v in c] + [0.0])
+    m = 1.0 if (big >= 1e-3 or big == 0.0 or case.get("elem_f") is not None) else 0.0
     for c in case["cols"]:
         for y, z in zip(ys, c):
             if case.get("elem_f") is None:
@@ -94,7 +96,7 @@ def score_scale(case):
         for z in (lo, hi):
             if case.get("elem_f") is None and sc.in_domain(case["kind"], float(case["h"]), case["level"], y, z):
                 m = max(m, sc.scale(case["kind"], float(case["h"]), case["level"], y, z))
-    return m
+    return m if m > 0 else 1.0
 
 
 def repair_tie_fragile(case):
